@@ -209,3 +209,56 @@ def admissible_ranks(rng, rd, cd=None, cap=None):
     for j in range(d - 1, 0, -1):
         rk[j] = min(rk[j], n[j] * rk[j + 1])
     return rk
+
+
+def isolated(fn, timeout=300):
+    """Run fn() in a forked child and hand its result back through a pipe.  Used for calls that feed *singular* systems to
+    LAPACK (over-parameterised guesses): depending on the pivots the real code raises, returns non-finite numbers or takes the
+    interpreter down with SIGSEGV inside scipy.linalg.solve - the child absorbs that.
+    Returns ('ok', value) | ('exception', type name, repr) | ('crash', 'signal N' or 'timeout')."""
+    import os
+    import pickle
+    import select
+    import signal
+    import time
+    r, w = os.pipe()
+    pid = os.fork()
+    if pid == 0:
+        try:
+            os.close(r)
+            signal.alarm(0)
+            try:
+                out = ('ok', fn())
+            except BaseException as e:  # noqa
+                out = ('exception', type(e).__name__, repr(e))
+            data = pickle.dumps(out)
+            with os.fdopen(w, 'wb') as f:
+                f.write(data)
+        finally:
+            os._exit(0)
+    os.close(w)
+    chunks, t0 = [], time.time()
+    while True:
+        left = timeout - (time.time() - t0)
+        if left <= 0:
+            try:
+                os.kill(pid, signal.SIGKILL)
+            except OSError:
+                pass
+            os.waitpid(pid, 0)
+            os.close(r)
+            return ('crash', 'timeout')
+        ready, _, _ = select.select([r], [], [], min(left, 5.0))
+        if ready:
+            b = os.read(r, 1 << 20)
+            if not b:
+                break
+            chunks.append(b)
+    os.close(r)
+    _, status = os.waitpid(pid, 0)
+    if os.WIFSIGNALED(status):
+        return ('crash', 'signal %d' % os.WTERMSIG(status))
+    try:
+        return pickle.loads(b''.join(chunks))
+    except Exception as e:  # noqa
+        return ('crash', 'no result (%r)' % e)
